@@ -282,8 +282,71 @@ def _bytes_shard(arg):
 # ---------------------------------------------------------------------------
 
 
+# ---------------------------------------------------------------------------
+# (v) call-order independence: configuration A evaluated, then configuration B on a fresh state
+# ---------------------------------------------------------------------------
+ORDER_DIMS = ((6, 6, 3, 3), (5, 7, 5, 7), (8, 4, 4, 2), (12, 10, 6, 10), (1, 3, 2, 2))
+ORDER_SLICES = ((1, 1), (2, 3))
+ORDER_DEPTHS = [(d, dh) for d in range(4) for dh in range(4)]
+
+
+def eval_config(dims, slices, depth):
+    """Every subband size and slice bound of one configuration, from the implementation."""
+    m = ss()
+    lw, lh, cw, ch = dims
+    d, dh = depth
+    st = mk_state(lw=lw, lh=lh, cw=cw, ch=ch, d=d, dh=dh, sx=slices[0], sy=slices[1])
+    out = []
+    for comp in COMPS:
+        for level in range(d + dh + 1):
+            out.append((m.subband_width(st, level, comp), m.subband_height(st, level, comp)))
+            out.append(tuple(m.slice_left(st, s, comp, level) for s in range(slices[0])) + tuple(m.slice_right(st, s, comp, level) for s in range(slices[0])))
+            out.append(tuple(m.slice_top(st, s, comp, level) for s in range(slices[1])) + tuple(m.slice_bottom(st, s, comp, level) for s in range(slices[1])))
+    out.append(m.slices_have_same_dimensions(st))
+    return out
+
+
+def ref_config(dims, slices, depth):
+    lw, lh, cw, ch = dims
+    d, dh = depth
+    out = []
+    for comp in COMPS:
+        w, h = (lw, lh) if comp == "Y" else (cw, ch)
+        sd = R.subband_dims(w, h, d, dh)
+        for level in range(d + dh + 1):
+            sw, sh = sd[level]
+            ex, ey = R.edges(sw, slices[0]), R.edges(sh, slices[1])
+            out.append((sw, sh))
+            out.append(tuple(ex[:-1]) + tuple(ex[1:]))
+            out.append(tuple(ey[:-1]) + tuple(ey[1:]))
+    out.append(R.same_dimensions((lw, lh), (cw, ch), d, dh, slices[0], slices[1]))
+    return out
+
+
+def check_order_case(dims, slices, a, b):
+    eval_config(dims, slices, a)
+    got, want = eval_config(dims, slices, b), ref_config(dims, slices, b)
+    if got != want:
+        k = next(i for i, (x, y) in enumerate(zip(got, want)) if x != y)
+        return ["after evaluating depths %r, configuration %r dims %r slices %r: item %d is %r, reference %r" % (a, b, dims, slices, k, got[k], want[k])]
+    return []
+
+
+def _order_shard(arg):
+    _, dims = arg
+    t = Tally()
+    for slices in ORDER_SLICES:
+        for a in ORDER_DEPTHS:
+            for b in ORDER_DEPTHS:
+                t.count("order_cases")
+                p = check_order_case(dims, slices, a, b)
+                if p:
+                    t.violation(p[0], {"kind": "order", "dims": list(dims), "slices": list(slices), "a": list(a), "b": list(b)})
+    return t
+
+
 def _dispatch(arg):
-    return {"axis": _axis_shard, "flag": _flag_shard, "shape": _shape_shard, "bytes": _bytes_shard}[arg[0]](arg)
+    return {"axis": _axis_shard, "flag": _flag_shard, "shape": _shape_shard, "bytes": _bytes_shard, "order": _order_shard}[arg[0]](arg)
 
 
 def run(ctx):
@@ -303,6 +366,8 @@ def run(ctx):
             shards.append(("flag", fmt, w, b["flag_wh"], b["flag_dep"], b["flag_slices"]))
     for w in range(1, b["shape_wh"] + 1):
         shards.append(("shape", w, b["shape_wh"], b["shape_d"], b["shape_dh"]))
+    for dims in ORDER_DIMS:
+        shards.append(("order", dims))
     rot = ctx.seed % len(shards)
     shards = shards[rot:] + shards[:rot]
     total = pool.map_shards(_dispatch, shards)
@@ -313,6 +378,7 @@ def run(ctx):
         "flag_cases": (total.n["flag_cases"], len(FORMATS) * b["flag_wh"] ** 2 * (b["flag_dep"] + 1) ** 2 * b["flag_slices"] ** 2),
         "shape_cases": (total.n["shape_cases"], b["shape_wh"] ** 2 * (b["shape_d"] + 1) * (b["shape_dh"] + 1)),
         "bytes_cases": (total.n["bytes_cases"], (b["bytes_num"] + 1) * b["bytes_den"] * b["bytes_slices"] ** 2),
+        "order_cases": (total.n["order_cases"], len(ORDER_DIMS) * len(ORDER_SLICES) * len(ORDER_DEPTHS) ** 2),
     }
     exhaustive = True
     for name, (got, want) in sorted(sizes.items()):
@@ -353,4 +419,6 @@ def replay_case(case):
         return check_shape_case(g("w"), g("h"), g("d"), g("dh"))
     if kind == "bytes":
         return check_bytes_case(g("num"), g("den"), g("sx"), g("sy"))[0]
+    if kind == "order":
+        return check_order_case(tuple(case["dims"]), tuple(case["slices"]), tuple(case["a"]), tuple(case["b"]))
     raise ValueError(kind)
